@@ -416,6 +416,7 @@ func (ex *Executor) enterBlock(st *State, fr *Frame, to *ssa.BasicBlock) bool {
 	st.events = nil
 	st.segStart = cutName
 	st.segHeap = copyHeap(st.heap)
+	st.segAlloc = st.alloc
 	st.segLocals = map[string]Val{}
 	for k, l := range fr.locals {
 		if !l.isAddr {
